@@ -1,12 +1,13 @@
 #!/bin/bash
 # seedregress.sh: re-applies every stored seeded change to a scratch worktree of /repo HEAD and confirms
-# that the quick tier of the property it breaks (or the check named in meta.json caught_by) reports it.
+# (VERIF_SEED selects the seed; log in /tmp/seedregress-<seed>.log) that the quick tier of the property it breaks (or the check named in meta.json caught_by) reports it.
 export GOFLAGS=-mod=mod GOPROXY=off
-out=/tmp/seedregress.log; : > $out
+seed=${VERIF_SEED:-1}
+out=/tmp/seedregress-$seed.log; : > $out
 for d in /verif/seeded/*/; do
   id=$(basename $d); prop=${id%%-*}
   checks=$(python3 -c "import json;m=json.load(open('$d/meta.json'));print(' '.join(m.get('caught_by') or ['$prop']))")
-  w=/tmp/sr-$id
+  w=/tmp/sr$seed-$id
   git -C /repo worktree remove --force $w >/dev/null 2>&1
   git -C /repo worktree add --detach $w >/dev/null 2>&1
   if ! (cd $w && git apply $d/patch.diff 2>/dev/null); then
@@ -15,7 +16,7 @@ for d in /verif/seeded/*/; do
   if ! (cd $w && go build ./... >/dev/null 2>&1); then echo "$id: does not build (skipped)" >> $out; git -C /repo worktree remove --force $w; continue; fi
   res="MISSED"
   for p in $checks; do
-    VERIF_REPO=$w VERIF_SEED=${VERIF_SEED:-1} /verif/check $p quick >/tmp/sr-$id.out 2>&1; rc=$?
+    VERIF_REPO=$w VERIF_SEED=$seed /verif/check $p quick >/tmp/sr$seed-$id.out 2>&1; rc=$?
     if [ $rc -eq 1 ]; then res="caught by $p"; break; fi
     [ $rc -eq 2 ] && res="INCONCLUSIVE ($p)"
   done
